@@ -25,7 +25,8 @@ fn main() {
     for i in 0..args.cases {
         let mut rng = root.fork(i as u64);
         let pools = gen_pools(&mut rng);
-        let n = if i % 8 == 0 { rng.range(1, 2) } else { rng.range(2, 8) } as usize;
+        let long_keys = pools.entities[0].len() > 8;
+        let n = if rng.chance(1, 8) { rng.range(1, 2) } else if long_keys { rng.range(2, 3) } else { rng.range(2, 8) } as usize;
         let mut db: BTreeMap<SubKey, Vec<u8>> = BTreeMap::new();
         let mut commits = vec![];
         let mut removed_existing = false;
